@@ -1,4 +1,480 @@
-import ScalesModel.Adapter.FrontEnd
+/-
+  Props/C01.lean — every call completes exactly once, no later than its deadline
+  (front end: dispatcher + timeout sink + sink stack; everything below is the environment).
+
+  Quantification: every list of operations (issues before/after the client finished opening,
+  replies/errors/time-outs posted by the environment at any time and any number of times,
+  timer actions, clock advances) that satisfies `opsOk`: time is monotone, the timer queue
+  is punctual (C10), the environment answers only requests it was handed and does not forge
+  a TimeoutError before the deadline.
+-/
+import ScalesModel.Proofs.FrontEndLemmas
 namespace Scales.FrontEnd
-theorem C01_placeholder : True := trivial
+
+def Good (oa : Option Nat) (i : CallInfo) (cl : Call) : Prop := CallInv oa i cl ∧ FirstOK i cl
+
+structure Rel (a : Acc) (s : FE) : Prop where
+  openNone : a.openAt = none ↔ s.openSt = .pending
+  calls : List.Forall₂ (Good a.openAt) a.infos s.calls
+
+def StepOK (oa' : Option Nat) (a' : Acc) (idx : Nat) (op : Op) (i' : CallInfo) (cl' : Call) : Prop :=
+  CallInv oa' i' cl' ∧ (∀ c, Acceptable (specCall a' idx op c i' (viewOf cl'))) ∧
+  FirstOK (note1 i' (viewOf cl')) cl'
+
+theorem forall₂_imp_mem {α β : Type} {R S : α → β → Prop} {l₁ : List α} {l₂ : List β}
+    (h : List.Forall₂ R l₁ l₂) (H : ∀ a b, a ∈ l₁ → b ∈ l₂ → R a b → S a b) : List.Forall₂ S l₁ l₂ := by
+  induction h with
+  | nil => exact .nil
+  | cons hab _ ih =>
+    refine .cons (H _ _ (by simp) (by simp) hab) (ih ?_)
+    intro a b ha hb; exact H a b (by simp [ha]) (by simp [hb])
+
+theorem punct_of (s : FE) (t : Nat) (h : armedBefore s t = false) :
+    ∀ cl ∈ s.calls, ∀ due, cl.phase = .live (some due) → t ≤ due := by
+  intro cl hcl due hp
+  unfold armedBefore at h
+  rw [List.any_eq_false] at h
+  have := h cl hcl
+  simp [hp] at this; exact this
+
+theorem punct_strict_of (s : FE) (t : Nat) (h : armedAtOrBefore s t = false) :
+    ∀ cl ∈ s.calls, ∀ due, cl.phase = .live (some due) → t < due := by
+  intro cl hcl due hp
+  unfold armedAtOrBefore at h
+  rw [List.any_eq_false] at h
+  have := h cl hcl
+  simp [hp] at this; exact this
+
+theorem dispatch_new_zero (n t : Nat) : (newCall n t 0).dispatch t =
+    { cid := n, issueT := t, T := 0, phase := .live none, evtSet := false, lowerGot := true, sets := [] } := by
+  simp [Call.dispatch, newCall]
+
+theorem dispatch_new_pos (n t T : Nat) (hT : T ≠ 0) : (newCall n t T).dispatch t =
+    { cid := n, issueT := t, T := T, phase := .live (some (roundUp (t + T))), evtSet := false, lowerGot := true,
+      sets := [] } := by
+  have hd : ¬ (t + T < t) := by omega
+  simp [Call.dispatch, newCall, hT, hd]
+
+/-- a freshly issued call -/
+theorem step_new (a : Acc) (s : FE) (hrel : Rel a s) (T t : Nat) (idx : Nat) :
+    let a' := a.after (.issue T t)
+    let cl' := (match s.openSt with
+      | .done _ _ => (newCall s.calls.length t T).dispatch t
+      | .pending => newCall s.calls.length t T)
+    StepOK a'.openAt a' idx (.issue T t)
+      { cid := a.infos.length, issueT := t, T := T, preOpen := a.openAt.isNone } cl' := by
+  intro a' cl'
+  have hlen := hrel.calls.length_eq
+  have hoa : a'.openAt = a.openAt := rfl
+  cases hos : s.openSt with
+  | pending =>
+    have hnone : a.openAt = none := hrel.openNone.mpr hos
+    have hcl : cl' = newCall s.calls.length t T := by simp [cl', hos]
+    rw [hcl, hoa, hnone]
+    have hinv : CallInv none { cid := a.infos.length, issueT := t, T := T, preOpen := (none : Option Nat).isNone }
+        (newCall s.calls.length t T) :=
+      ⟨by simp [newCall, hlen], rfl, rfl, by simp [newCall], by simp [newCall], by simp [newCall],
+        by simp, by simp [newCall], by simp [newCall]⟩
+    refine ⟨hinv, ?_, note1_first _ _ (by simp [newCall]) (Or.inl rfl)⟩
+    intro c
+    apply spec_pending a' idx c _ _ _ (by simp [newCall]) rfl
+    intro hT hlate
+    simp only [Op.time, Op.isTick] at hlate
+    have := le_roundUp (t + T)
+    simp only at hT
+    rcases hlate with h | ⟨_, h⟩
+    · omega
+    · cases h
+  | done ok t0 =>
+    have hsome : a.openAt ≠ none := fun h => by have := hrel.openNone.mp h; rw [hos] at this; cases this
+    obtain ⟨t1, ht1⟩ := Option.ne_none_iff_exists'.mp hsome
+    have hcl : cl' = (newCall s.calls.length t T).dispatch t := by simp [cl', hos]
+    rw [hcl, hoa, ht1]
+    by_cases hT : T = 0
+    · subst hT
+      rw [dispatch_new_zero]
+      have hinv : CallInv (some t1) { cid := a.infos.length, issueT := t, T := 0, preOpen := (some t1).isNone }
+          { cid := s.calls.length, issueT := t, T := 0, phase := .live none, evtSet := false, lowerGot := true,
+            sets := [] } :=
+        ⟨by simp [hlen], rfl, rfl, by simp, by simp, by simp, by simp, by simp, fun _ => rfl⟩
+      refine ⟨hinv, ?_, note1_first _ _ (by simp) (Or.inl rfl)⟩
+      intro c
+      apply spec_pending a' idx c _ _ _ rfl rfl
+      intro h; simp only at h; omega
+    · rw [dispatch_new_pos _ _ _ hT]
+      have hinv : CallInv (some t1) { cid := a.infos.length, issueT := t, T := T, preOpen := (some t1).isNone }
+          { cid := s.calls.length, issueT := t, T := T, phase := .live (some (roundUp (t + T))), evtSet := false,
+            lowerGot := true, sets := [] } :=
+        ⟨by simp [hlen], rfl, rfl, by simp, by simp, by simp, by simp, by simp; omega, by simp⟩
+      refine ⟨hinv, ?_, note1_first _ _ (by simp) (Or.inl rfl)⟩
+      intro c
+      apply spec_pending a' idx c _ _ _ rfl rfl
+      intro _ hlate
+      simp only [Op.time, Op.isTick] at hlate
+      have := le_roundUp (t + T)
+      rcases hlate with h | ⟨_, h⟩
+      · omega
+      · cases h
+
+
+theorem opOk_parts (s : FE) (op : Op) (h : opOk s op = true) :
+    s.clock ≤ op.time ∧ armedBefore s op.time = false := by
+  unfold opOk at h
+  simp only [Bool.and_eq_true, decide_eq_true_eq, Bool.not_eq_true'] at h
+  exact ⟨h.1.1, h.1.2⟩
+
+/-- one operation: every (remembered info, call) pair moves to a pair that satisfies the
+    per-call invariant, is acceptable to the specification, and is remembered correctly -/
+theorem after_step (a : Acc) (s : FE) (hrel : Rel a s) (op : Op) (hok : opOk s op = true) (idx : Nat) :
+    List.Forall₂ (StepOK (a.after op).openAt (a.after op) idx op) (a.after op).infos (stepSt s op).calls ∧
+    ((a.after op).openAt = none ↔ (stepSt s op).openSt = .pending) := by
+  obtain ⟨_, hab⟩ := opOk_parts s op hok
+  have hpunct := punct_of s op.time hab
+  have hcalls := hrel.calls
+  cases op with
+  | issue T t =>
+    constructor
+    · show List.Forall₂ _ (a.infos ++ [_]) (s.calls ++ [_])
+      apply List.rel_append
+      · apply forall₂_imp_mem hcalls
+        intro i cl _ hcl hg
+        obtain ⟨r1, r2, r3⟩ := step_same a.openAt a.openAt (a.after (.issue T t)) rfl idx 0 (.issue T t) i i cl
+          hg.1 hg.2 ⟨rfl, rfl, rfl, rfl, rfl⟩ (Or.inl rfl)
+          (fun due hp => ⟨hpunct cl hcl due hp, fun h => by cases h⟩)
+        refine ⟨r1, fun c => ?_, r3⟩
+        exact (step_same a.openAt a.openAt (a.after (.issue T t)) rfl idx c (.issue T t) i i cl
+          hg.1 hg.2 ⟨rfl, rfl, rfl, rfl, rfl⟩ (Or.inl rfl)
+          (fun due hp => ⟨hpunct cl hcl due hp, fun h => by cases h⟩)).2.1
+      · exact .cons (step_new a s hrel T t idx) .nil
+    · show a.openAt = none ↔ s.openSt = .pending
+      exact hrel.openNone
+  | openDone ok t =>
+    cases hos : s.openSt with
+    | done ok0 t0 =>
+      have hsome : a.openAt ≠ none := fun h => by have := hrel.openNone.mp h; rw [hos] at this; cases this
+      have ha' : a.after (.openDone ok t) = a := by
+        simp only [Acc.after]
+        cases hoa : a.openAt with
+        | none => exact absurd hoa hsome
+        | some _ => simp
+      have hs' : (stepSt s (.openDone ok t)).calls = s.calls ∧ (stepSt s (.openDone ok t)).openSt = s.openSt := by
+        simp [stepSt, FE.openDone, hos]
+      rw [ha', hs'.1, hs'.2]
+      refine ⟨?_, hrel.openNone⟩
+      apply forall₂_imp_mem hcalls
+      intro i cl _ hcl hg
+      have := fun c => step_same a.openAt a.openAt a rfl idx c (.openDone ok t) i i cl
+          hg.1 hg.2 ⟨rfl, rfl, rfl, rfl, rfl⟩ (Or.inl rfl)
+          (fun due hp => ⟨hpunct cl hcl due hp, fun h => by cases h⟩)
+      exact ⟨(this 0).1, fun c => (this c).2.1, (this 0).2.2⟩
+    | pending =>
+      have hnone : a.openAt = none := hrel.openNone.mpr hos
+      have ha' : (a.after (.openDone ok t)).openAt = some t ∧ (a.after (.openDone ok t)).infos = a.infos := by
+        simp [Acc.after, hnone]
+      have hs' : (stepSt s (.openDone ok t)).calls = s.calls.map (fun c => c.dispatch t) ∧
+          (stepSt s (.openDone ok t)).openSt = .done ok t := by
+        simp [stepSt, FE.openDone, hos]
+      rw [ha'.1, ha'.2, hs'.1, hs'.2]
+      refine ⟨?_, by simp⟩
+      rw [List.forall₂_map_right_iff]
+      apply forall₂_imp_mem hcalls
+      intro i cl _ hcl hg
+      rw [hnone] at hg
+      by_cases hp : cl.phase = .waitOpen
+      · have := fun c => step_dispatch (a.after (.openDone ok t)) t ha'.1 idx c (.openDone ok t) rfl rfl i i cl
+          hg.1 hg.2 ⟨rfl, rfl, rfl, rfl, rfl⟩ hp
+        exact ⟨(this 0).1, fun c => (this c).2.1, (this 0).2.2⟩
+      · have hid : cl.dispatch t = cl := by
+          unfold Call.dispatch
+          cases hph : cl.phase <;> simp_all
+        rw [hid]
+        have := fun c => step_same none (some t) (a.after (.openDone ok t)) ha'.1 idx c (.openDone ok t) i i cl
+          hg.1 hg.2 ⟨rfl, rfl, rfl, rfl, rfl⟩ (Or.inr ⟨rfl, hp⟩)
+          (fun due hp => ⟨hpunct cl hcl due hp, fun h => by cases h⟩)
+        exact ⟨(this 0).1, fun c => (this c).2.1, (this 0).2.2⟩
+  | lower c0 o t =>
+    have hoa : (a.after (.lower c0 o t)).openAt = a.openAt := rfl
+    have hall : ∀ cl ∈ s.calls, cl.cid = c0 → cl.lowerGot = true := by
+      intro cl hcl hc
+      unfold opOk at hok
+      simp only [Bool.and_eq_true, List.all_eq_true] at hok
+      have := hok.2.2 cl hcl
+      simp [hc] at this
+      exact this.1
+    refine ⟨?_, hrel.openNone⟩
+    show List.Forall₂ _ (a.infos.map _) (s.calls.map _)
+    rw [List.forall₂_map_left_iff, List.forall₂_map_right_iff]
+    apply forall₂_imp_mem hcalls
+    intro i cl _ hcl hg
+    have hcid : i.cid = cl.cid := hg.1.cid
+    by_cases hc : cl.cid = c0
+    · have hic : i.cid = c0 := hcid.trans hc
+      simp only [if_pos hc, if_pos hic]
+      have := fun c => step_respond a.openAt (a.after (.lower c0 o t)) hoa idx c (.lower c0 o t) o i
+          { i with posts := i.posts ++ [o] } cl hg.1 hg.2 ⟨rfl, rfl, rfl, rfl, rfl⟩ (by simp)
+          (hall cl hcl hc) (fun due hp => hpunct cl hcl due hp)
+      exact ⟨(this 0).1, fun c => (this c).2.1, (this 0).2.2⟩
+    · have hic : ¬ i.cid = c0 := fun h => hc (hcid.symm.trans h)
+      simp only [if_neg hc, if_neg hic]
+      have := fun c => step_same a.openAt a.openAt (a.after (.lower c0 o t)) hoa idx c (.lower c0 o t) i i cl
+          hg.1 hg.2 ⟨rfl, rfl, rfl, rfl, rfl⟩ (Or.inl rfl)
+          (fun due hp => ⟨hpunct cl hcl due hp, fun h => by cases h⟩)
+      exact ⟨(this 0).1, fun c => (this c).2.1, (this 0).2.2⟩
+  | fire cs t =>
+    have hoa : (a.after (.fire cs t)).openAt = a.openAt := rfl
+    refine ⟨?_, hrel.openNone⟩
+    show List.Forall₂ _ (a.infos.map _) (s.calls.map _)
+    rw [List.forall₂_map_left_iff, List.forall₂_map_right_iff]
+    apply forall₂_imp_mem hcalls
+    intro i cl _ hcl hg
+    have hcid : i.cid = cl.cid := hg.1.cid
+    by_cases hc : (cs.contains cl.cid && cl.fireEnabled t) = true
+    · simp only [hc, if_true]
+      simp only [Bool.and_eq_true] at hc
+      have := fun c => step_fire a.openAt (a.after (.fire cs t)) hoa idx c (.fire cs t) i
+          (if cs.contains i.cid then { i with fired := true } else i) cl hg.1 hg.2
+          (by split <;> exact ⟨rfl, rfl, rfl, rfl, rfl⟩) hc.2 (fun due hp => hpunct cl hcl due hp)
+      exact ⟨(this 0).1, fun c => (this c).2.1, (this 0).2.2⟩
+    · simp only [hc]
+      have := fun c => step_same a.openAt a.openAt (a.after (.fire cs t)) hoa idx c (.fire cs t) i
+          (if cs.contains i.cid then { i with fired := true } else i) cl
+          hg.1 hg.2 (by split <;> exact ⟨rfl, rfl, rfl, rfl, rfl⟩) (Or.inl rfl)
+          (fun due hp => ⟨hpunct cl hcl due hp, fun h => by cases h⟩)
+      exact ⟨(this 0).1, fun c => (this c).2.1, (this 0).2.2⟩
+  | tick t =>
+    have hstrict : armedAtOrBefore s t = false := by
+      unfold opOk at hok
+      simp only [Bool.and_eq_true, Bool.not_eq_true'] at hok
+      exact hok.2
+    have hps := punct_strict_of s t hstrict
+    refine ⟨?_, hrel.openNone⟩
+    show List.Forall₂ _ a.infos s.calls
+    apply forall₂_imp_mem hcalls
+    intro i cl _ hcl hg
+    have := fun c => step_same a.openAt a.openAt (a.after (.tick t)) rfl idx c (.tick t) i i cl
+        hg.1 hg.2 ⟨rfl, rfl, rfl, rfl, rfl⟩ (Or.inl rfl)
+        (fun due hp => ⟨hpunct cl hcl due hp, fun _ => hps cl hcl due hp⟩)
+    exact ⟨(this 0).1, fun c => (this c).2.1, (this 0).2.2⟩
+
+theorem specCalls_acceptable (a : Acc) (idx : Nat) (op : Op) (oa : Option Nat) :
+    ∀ (infos : List CallInfo) (calls : List Call), List.Forall₂ (StepOK oa a idx op) infos calls →
+      ∀ c, Acceptable (specCalls a idx op c infos (calls.map viewOf)) := by
+  intro infos calls h
+  induction h with
+  | nil => intro c; exact Or.inl rfl
+  | cons hab _ ih =>
+    intro c
+    simp only [List.map_cons, specCalls]
+    exact Acceptable.and (hab.2.1 c) (ih (c + 1))
+
+theorem noteFirst_good (a : Acc) (idx : Nat) (op : Op) (oa : Option Nat) :
+    ∀ (infos : List CallInfo) (calls : List Call), List.Forall₂ (StepOK oa a idx op) infos calls →
+      List.Forall₂ (Good oa) (noteFirst infos (calls.map viewOf)) calls := by
+  intro infos calls h
+  induction h with
+  | nil => exact .nil
+  | cons hab _ ih =>
+    simp only [List.map_cons, noteFirst]
+    refine .cons ⟨?_, hab.2.2⟩ ih
+    obtain ⟨f1, f2, f3, f4, _⟩ := note1_fields _ (viewOf _)
+    exact hab.1.congr ⟨f1, f2, f3, f4⟩
+
+theorem specGo_acceptable : ∀ (ops : List Op) (a : Acc) (s : FE) (idx : Nat), Rel a s → opsOk s ops = true →
+    Acceptable (specGo a idx (comp.trace () s ops)) := by
+  intro ops
+  induction ops with
+  | nil => intro a s idx _ _; exact Or.inl rfl
+  | cons op ops ih =>
+    intro a s idx hrel hok
+    simp only [opsOk, Bool.and_eq_true] at hok
+    obtain ⟨h1, h2⟩ := hok
+    obtain ⟨hstep, hopen⟩ := after_step a s hrel op h1 idx
+    simp only [TComp.trace, comp, step, specGo]
+    apply Acceptable.and
+    · exact specCalls_acceptable _ idx op _ _ _ hstep 0
+    · apply ih _ (stepSt s op) (idx + 1) _ h2
+      exact ⟨hopen, noteFirst_good _ idx op _ _ _ hstep⟩
+
+/-- **C01, specification level.**  For every legal operation list the history of the model is
+    accepted by the executable specification, or the only thing the specification objects to
+    is the known finding K1 (a call issued before the client finished opening, whose timeout
+    elapsed before opening completed). -/
+theorem C01_model_satisfies_spec (ops : List Op) (hok : opsOk FE.init ops = true) :
+    spec () (comp.modelTrace () ops) = .ok ∨ isOpenLate (spec () (comp.modelTrace () ops)) = true := by
+  apply specGo_acceptable ops {} FE.init 0 _ hok
+  exact ⟨by simp [FE.init], .nil⟩
+
+
+/-! ### consequences stated on the model directly -/
+
+def runOps (s : FE) (ops : List Op) : FE := ops.foldl stepSt s
+
+theorem reachable_rel : ∀ (ops : List Op) (a : Acc) (s : FE), Rel a s → opsOk s ops = true →
+    ∃ a', Rel a' (runOps s ops) := by
+  intro ops
+  induction ops with
+  | nil => intro a s h _; exact ⟨a, h⟩
+  | cons op ops ih =>
+    intro a s hrel hok
+    simp only [opsOk, Bool.and_eq_true] at hok
+    obtain ⟨hstep, hopen⟩ := after_step a s hrel op hok.1 0
+    exact ih { a.after op with infos := noteFirst (a.after op).infos ((stepSt s op).calls.map viewOf) }
+      (stepSt s op) ⟨hopen, noteFirst_good _ 0 op _ _ _ hstep⟩ hok.2
+
+/-- The result of every call is set at most once, whatever replies, faults and timers arrive,
+    and it is set exactly when the call's sink stack has been drained. -/
+theorem C01_at_most_once (ops : List Op) (hok : opsOk FE.init ops = true) :
+    ∀ cl ∈ (runOps FE.init ops).calls, cl.sets.length ≤ 1 ∧ ((∃ t, cl.phase = .over t) ↔ cl.sets ≠ []) := by
+  obtain ⟨a, hrel⟩ := reachable_rel ops {} FE.init ⟨by simp [FE.init], .nil⟩ hok
+  intro cl hcl
+  have : ∀ (infos : List CallInfo) (calls : List Call), List.Forall₂ (Good a.openAt) infos calls →
+      ∀ cl ∈ calls, cl.sets.length ≤ 1 ∧ ((∃ t, cl.phase = .over t) ↔ cl.sets ≠ []) := by
+    intro infos calls h
+    induction h with
+    | nil => intro cl h; cases h
+    | cons hab _ ih =>
+      intro cl h
+      rcases List.mem_cons.mp h with h | h
+      · subst h; exact ⟨hab.1.setsLe, hab.1.overIff⟩
+      · exact ih cl h
+  exact this _ _ hrel.calls cl hcl
+
+/-- A reply, fault or timer that arrives after completion has no further effect on the caller:
+    on a completed call neither a posted response nor the timer action touches the result. -/
+theorem C01_late_arrivals_inert (cl : Call) (now : Nat) (o : Outcome)
+    (hdone : ∃ t, cl.phase = .over t) :
+    (cl.respond now o).sets = cl.sets ∧ (cl.fire now).sets = cl.sets ∧
+    (cl.respond now o).phase = cl.phase := by
+  obtain ⟨t, ht⟩ := hdone
+  refine ⟨by simp [Call.respond, ht], ?_, by simp [Call.respond, ht]⟩
+  unfold Call.fire
+  cases t <;> simp [ht]
+
+/-! ### the deadline bound: proved when the client is open before calls are issued, false
+    in general (K1) -/
+
+theorem specCall_not_openLate (a : Acc) (idx : Nat) (op : Op) (c : Nat) (i : CallInfo) (v : CallView)
+    (h : i.preOpen = false) : isOpenLate (specCall a idx op c i v) = false := by
+  have hol : openLate a i = false := by simp [openLate, h]
+  unfold specCall
+  simp only [hol, Verdict.and]
+  repeat' split
+  all_goals (first | rfl | (simp [isOpenLate]; done) | (simp_all; done))
+
+
+theorem and_not_openLate (v : Verdict) (f : Unit → Verdict) (h1 : isOpenLate v = false)
+    (h2 : isOpenLate (f ()) = false) : isOpenLate (v.and f) = false := by
+  cases v with
+  | ok => exact h2
+  | fail c ps => exact h1
+
+theorem specCalls_not_openLate (a : Acc) (idx : Nat) (op : Op) :
+    ∀ (infos : List CallInfo) (vs : List CallView) (c : Nat), (∀ i ∈ infos, i.preOpen = false) →
+      isOpenLate (specCalls a idx op c infos vs) = false := by
+  intro infos
+  induction infos with
+  | nil => intro vs c _; cases vs <;> rfl
+  | cons i is ih =>
+    intro vs c h
+    cases vs with
+    | nil => rfl
+    | cons v vs =>
+      simp only [specCalls]
+      exact and_not_openLate _ _ (specCall_not_openLate a idx op c i v (h i (by simp)))
+        (ih vs (c + 1) (fun j hj => h j (by simp [hj])))
+
+theorem noteFirst_preOpen : ∀ (infos : List CallInfo) (vs : List CallView),
+    (∀ i ∈ infos, i.preOpen = false) → ∀ i ∈ noteFirst infos vs, i.preOpen = false := by
+  intro infos
+  induction infos with
+  | nil => intro vs _ i hi; cases vs <;> simp [noteFirst] at hi
+  | cons j js ih =>
+    intro vs h i hi
+    cases vs with
+    | nil => simp only [noteFirst] at hi; exact h i hi
+    | cons v vs =>
+      simp only [noteFirst, List.mem_cons] at hi
+      rcases hi with hi | hi
+      · rw [hi, (note1_fields j v).2.2.2.1]; exact h j (by simp)
+      · exact ih vs (fun k hk => h k (by simp [hk])) i hi
+
+theorem specGo_not_openLate : ∀ (h : List (Op × Obs)) (a : Acc) (idx : Nat), a.openAt ≠ none →
+    (∀ i ∈ a.infos, i.preOpen = false) → isOpenLate (specGo a idx h) = false := by
+  intro h
+  induction h with
+  | nil => intros; rfl
+  | cons p rest ih =>
+    intro a idx hoa hpre
+    obtain ⟨op, o⟩ := p
+    have hoa' : (a.after op).openAt ≠ none := by
+      cases op <;> simp only [Acc.after] <;> first | exact hoa | (split <;> simp_all)
+    have hpre' : ∀ i ∈ (a.after op).infos, i.preOpen = false := by
+      intro i hi
+      cases op with
+      | issue T t =>
+        simp only [Acc.after, List.mem_append, List.mem_singleton] at hi
+        rcases hi with hi | hi
+        · exact hpre i hi
+        · subst hi
+          cases hx : a.openAt with
+          | none => exact absurd hx hoa
+          | some _ => simp
+      | openDone ok t =>
+        simp only [Acc.after] at hi
+        split at hi <;> exact hpre i hi
+      | lower c o t =>
+        simp only [Acc.after, List.mem_map] at hi
+        obtain ⟨j, hj, rfl⟩ := hi
+        split <;> simp [hpre j hj]
+      | fire cs t =>
+        simp only [Acc.after, List.mem_map] at hi
+        obtain ⟨j, hj, rfl⟩ := hi
+        split <;> simp [hpre j hj]
+      | tick t => exact hpre i hi
+    simp only [specGo]
+    apply and_not_openLate
+    · exact specCalls_not_openLate _ idx op _ _ 0 hpre'
+    · exact ih _ (idx + 1) hoa' (noteFirst_preOpen _ _ hpre')
+
+/-- **Deadline bound (partial).**  When the client has finished opening before the first call is
+    issued, every clause of the specification holds of the model for every legal history: each
+    call with timeout T issued at t is complete at every quiescent point from ⌈t+T⌉ (10 ms grid)
+    on, TimeoutError is never delivered before t+T, outcomes come from what the environment
+    posted, and nothing changes after completion. -/
+theorem C01_deadline_bound_partial (ok : Bool) (t0 : Nat) (ops : List Op)
+    (hok : opsOk FE.init (.openDone ok t0 :: ops) = true) :
+    spec () (comp.modelTrace () (.openDone ok t0 :: ops)) = .ok := by
+  rcases C01_model_satisfies_spec _ hok with h | h
+  · exact h
+  · exfalso
+    have : isOpenLate (spec () (comp.modelTrace () (.openDone ok t0 :: ops))) = false := by
+      unfold spec TComp.modelTrace
+      simp only [TComp.trace, specGo]
+      apply and_not_openLate
+      · rfl
+      · apply specGo_not_openLate
+        · simp [Acc.after]
+        · intro i hi; simp [Acc.after, noteFirst] at hi
+    rw [this] at h; cases h
+
+/-- **K1 (known finding), as a theorem about the model.**  A call issued before the client has
+    finished opening has no timer until opening completes: if opening never completes (or takes
+    longer than the call's timeout) the bound is missed.  Here: T = 25 ms issued at 3.7 ms, the
+    clock reaches 4 s, the call is still pending. -/
+theorem C01_deadline_bound_open_slow_counterexample :
+    opsOk FE.init [.issue 25000 3700, .tick 4003700] = true ∧
+    isOpenLate (spec () (comp.modelTrace () [.issue 25000 3700, .tick 4003700])) = true ∧
+    (spec () (comp.modelTrace () [.issue 25000 3700, .tick 4003700])).isOk = false := by
+  decide
+
+/-! non-vacuity: a legal history with a reply, a late duplicate, a timer and a pre-open call -/
+example : opsOk FE.init
+    [.openDone true 0, .issue 25000 3700, .issue 17000 3700, .lower 0 (.ok 5) 13700, .lower 0 (.ok 6) 13700,
+     .fire [1] 30000, .tick 53700] = true := by decide
+
+example : (runOps FE.init
+    [.openDone true 0, .issue 25000 3700, .issue 17000 3700, .lower 0 (.ok 5) 13700, .lower 0 (.ok 6) 13700,
+     .fire [1] 30000, .tick 53700]).calls.map (fun c => c.sets) =
+    [[(13700, .ok 5)], [(30000, .timeout)]] := by decide
+
 end Scales.FrontEnd
